@@ -66,7 +66,7 @@ def classify_loop(fn, loop):
                 if any(isinstance(it, ast.Slice) for it in items):
                     # X = A[S[e]:S[e+1]] with e built from v  -> the iteration's own range
                     it = [x for x in items if isinstance(x, ast.Slice)][0]
-                    if it.lower is not None and it.upper is not None and _block_bounds(it.lower, it.upper, v, tids):
+                    if it.lower is not None and it.upper is not None and _block_bounds(it.lower, it.upper, v, tids, stores_in(body)):
                         local_slices[name] = unparse(val.value)
                     elif isinstance(val.value, ast.Name) and val.value.id in local_slices:
                         local_slices[name] = local_slices[val.value.id]
@@ -84,8 +84,23 @@ def classify_loop(fn, loop):
         if isinstance(n, ast.For) and isinstance(n.target, ast.Name) and isinstance(n.iter, ast.Call) \
                 and dotted(n.iter.func) == 'range' and len(n.iter.args) == 2:
             lo, hi = n.iter.args
-            if _block_bounds(lo, hi, v, tids):
-                inner_block[n.target.id] = unparse(lo.value) if isinstance(lo, ast.Subscript) else '?'
+            if _block_bounds(lo, hi, v, tids, stores_in(body)):
+                inner_block[id(n)] = unparse(lo.value) if isinstance(lo, ast.Subscript) else '?'
+            elif v and affine_block(lo, hi, v, stores_in(body)) is not None:
+                inner_block[id(n)] = f'affine blocks {unparse(lo)} .. {unparse(hi)}'
+    parent = {}
+    for n in walk_no_nested(body):
+        for ch in ast.iter_child_nodes(n):
+            parent[id(ch)] = n
+
+    def binding_loop(node, name):
+        """The nearest enclosing for-loop (inside the prange body) whose target is `name`."""
+        p_ = parent.get(id(node))
+        while p_ is not None:
+            if isinstance(p_, ast.For) and isinstance(p_.target, ast.Name) and p_.target.id == name:
+                return p_
+            p_ = parent.get(id(p_))
+        return None
     # cursor variables advanced by += 1 stay cursors (j1 += 1)
     for n in walk_no_nested(body):
         tgts = []
@@ -114,7 +129,7 @@ def classify_loop(fn, loop):
                 if private_index(x):
                     cls = 'thread-row' if (isinstance(x, ast.Name) and x.id in tids) or isinstance(x, ast.Call) else 'iteration-private'
                     break
-                if isinstance(x, ast.Name) and x.id in inner_block:
+                if isinstance(x, ast.Name) and id(binding_loop(t, x.id)) in inner_block:
                     cls = 'block-private'
                     break
                 if isinstance(x, ast.Name) and x.id in cursors:
@@ -123,28 +138,80 @@ def classify_loop(fn, loop):
             if cls is None:
                 # whole-slice stores with explicit private bounds: A[T[v]:T[v+1]] = ...
                 for x in items:
-                    if isinstance(x, ast.Slice) and x.lower is not None and x.upper is not None and _block_bounds(x.lower, x.upper, v, tids):
+                    if isinstance(x, ast.Slice) and x.lower is not None and x.upper is not None and _block_bounds(x.lower, x.upper, v, tids, stores_in(body)):
                         cls = 'slice-private'
             out.append(StoreInfo(arr, cls or 'shared', t, loop))
     return out
 
 
-def _block_bounds(lo, hi, v, tids):
-    """lo, hi == T[e], T[e+1] for the same table T, e an expression in the private index v only
-    (or a tid name); also accepts offsets  T[e] + c .. T[e+1] + c."""
+def _block_bounds(lo, hi, v, tids, varying=()):
+    """lo, hi == T[e], T[e+1] for the same table T, e = c*v + d with c a non-zero integer and d loop-invariant
+    (v the private index or a tid name); also accepts offsets  T[e] + c .. T[e+1] + c."""
+    if isinstance(lo, ast.BinOp) and isinstance(hi, ast.BinOp) and type(lo.op) is type(hi.op) and isinstance(lo.op, (ast.Add, ast.Sub)) \
+            and unparse(lo.right) == unparse(hi.right) and not (names_in(lo.right) & (set(varying) | {v} | set(tids))):
+        lo, hi = lo.left, hi.left
     if not (isinstance(lo, ast.Subscript) and isinstance(hi, ast.Subscript)):
         return False
     if unparse(lo.value) != unparse(hi.value):
         return False
+    from .poly import Poly
     el, eh = lo.slice, hi.slice
-    names = {n.id for n in ast.walk(el) if isinstance(n, ast.Name)}
-    if not names or not names <= ({v} | set(tids)):
+    priv = [x for x in ({v} | set(tids)) if x and x in names_in(el)]
+    if len(priv) != 1:
         return False
-    # eh must be el + 1
-    a, b = _affine(el, names), _affine(eh, names)
-    if a is None or b is None:
+    w = priv[0]
+    a, b = _topoly(el, set(varying) - {w}), _topoly(eh, set(varying) - {w})
+    if a is None or b is None or not (b - a == Poly.const(1)):
         return False
-    return a[0] == b[0] and b[1] - a[1] == 1 and a[0] != 0
+    # a = c*w + d with c a non-zero integer constant
+    coef = [c for m, c in a.t.items() if m == ((w, 1),)]
+    others = [m for m in a.t if any(s_ == w for s_, _ in m) and m != ((w, 1),)]
+    return len(coef) == 1 and coef[0].denominator == 1 and coef[0] != 0 and not others
+
+
+def _topoly(e, frozen_out):
+    """Integer expression as an exact polynomial; None when it uses anything but names, integer literals, + - *."""
+    from .poly import Poly
+    if isinstance(e, ast.Constant) and isinstance(e.value, int) and not isinstance(e.value, bool):
+        return Poly.const(e.value)
+    if isinstance(e, ast.Name):
+        if e.id in frozen_out:
+            return None
+        return Poly.sym(e.id)
+    if isinstance(e, ast.BinOp) and isinstance(e.op, (ast.Add, ast.Sub, ast.Mult)):
+        a, b = _topoly(e.left, frozen_out), _topoly(e.right, frozen_out)
+        if a is None or b is None:
+            return None
+        return a + b if isinstance(e.op, ast.Add) else (a - b if isinstance(e.op, ast.Sub) else a * b)
+    if isinstance(e, ast.Call) and dotted(e.func) == 'len' and len(e.args) == 1 and isinstance(e.args[0], ast.Name) and e.args[0].id not in frozen_out:
+        return Poly.sym(f'len({e.args[0].id})')
+    return None
+
+
+def affine_block(lo, hi, v, stored):
+    """Inner range(lo, hi) of a prange over v with lo = a*v + b (a, b loop-invariant) and hi = lo[v+1] or
+    min(lo[v+1], X): the blocks of different iterations are disjoint.  Returns dict(lo, step, cap) or None."""
+    from .poly import Poly
+    varying = set(stored) - {v}
+    pl = _topoly(lo, varying)
+    if pl is None or v not in pl.syms():
+        return None
+    # degree in v must be exactly one
+    for m in pl.t:
+        for sname, e in m:
+            if sname == v and e != 1:
+                return None
+    nxt = pl.subst(v, Poly.sym(v) + 1)
+    cap = None
+    cands = [hi]
+    if isinstance(hi, ast.Call) and dotted(hi.func) in ('min', 'np.minimum') and len(hi.args) == 2:
+        cands = list(hi.args)
+    hit = [c for c in cands if _topoly(c, varying) == nxt]
+    if not hit:
+        return None
+    if len(cands) == 2:
+        cap = [c for c in cands if c is not hit[0]][0]
+    return dict(lo=pl, step=nxt - pl, cap=cap)
 
 
 def _affine(e, names):
@@ -184,3 +251,104 @@ def thread_row_arrays(fn):
                 and dotted(n.value.func) in ALLOC and n.value.args and isinstance(n.value.args[0], ast.Tuple):
             out[n.targets[0].id] = unparse(n.value.args[0].elts[0])
     return out
+
+
+# ------------------------------------------------------------------------------------------------
+def flat_coverage(fn, loop):
+    """Does a prange loop that updates a 1-D array X element by element visit every element of X?
+    Returns (verdict, detail, array) with verdict in PROVEN / REFUTED / UNKNOWN.  Forms decided:
+      direct     for i in prange(len(X)): X[i] = ...
+      table      T = rint(linspace(0, len(X), n + 1)); for t in prange(n): for i in range(T[t], T[t+1]): X[i] = ...
+      affine     for t in prange(n): for i in range(t*c, (t+1)*c) / range(t*c, min((t+1)*c, len(X)))  with c resolved"""
+    from .poly import Poly
+    v = loop.target.id if isinstance(loop.target, ast.Name) else None
+    args = loop.iter.args
+    if v is None or not args or len(args) > 2 or (len(args) == 2 and unparse(args[0]) != '0'):
+        return 'UNKNOWN', f'loop header {unparse(loop.iter)}', None
+    count = args[-1]
+    body_stores = stores_in(ast.Module(body=loop.body, type_ignores=[]))
+
+    def lens(x):
+        return {f'len({x})', f'{x}.size', f'{x}.shape[0]'}
+
+    def elem_store(stmts, idx):
+        for s in stmts:
+            t = s.targets[0] if isinstance(s, ast.Assign) and len(s.targets) == 1 else (s.target if isinstance(s, ast.AugAssign) else None)
+            if isinstance(t, ast.Subscript) and isinstance(t.value, ast.Name) and isinstance(t.slice, ast.Name) and t.slice.id == idx:
+                return t.value.id
+        return None
+
+    def single_def(name):
+        d = [s for s in walk_no_nested(fn) if isinstance(s, ast.Assign) and len(s.targets) == 1 and isinstance(s.targets[0], ast.Name) and s.targets[0].id == name]
+        aug = [s for s in walk_no_nested(fn) if isinstance(s, ast.AugAssign) and isinstance(s.target, ast.Name) and s.target.id == name]
+        return d[0].value if len(d) == 1 and not aug else None
+
+    X = elem_store(loop.body, v)
+    if X is not None:
+        if unparse(count) in lens(X):
+            return 'PROVEN', f'direct: {unparse(loop.iter)} indexes {X}[{v}]', X
+        return 'REFUTED', f'{X}[{v}] is updated for {v} in {unparse(loop.iter)}, which is not the length of {X}: elements are skipped', X
+    for inner in loop.body:
+        if not (isinstance(inner, ast.For) and isinstance(inner.target, ast.Name) and isinstance(inner.iter, ast.Call)
+                and dotted(inner.iter.func) == 'range' and len(inner.iter.args) == 2):
+            continue
+        X = elem_store(inner.body, inner.target.id)
+        if X is None:
+            continue
+        lo, hi = inner.iter.args
+        if _block_bounds(lo, hi, v, (), body_stores):
+            T = unparse(lo.value)
+            tdef = single_def(T)
+            txt = unparse(tdef) if tdef is not None else ''
+            n = unparse(count)
+            ok = tdef is not None and 'linspace(0,' in txt and any(f'linspace(0, {L}, {n} + 1)' in txt for L in lens(X)) and unparse(lo.slice) == v
+            if ok:
+                return 'PROVEN', f'table: {T} = {txt} tiles [0, len({X})) in {n} blocks', X
+            return 'UNKNOWN', f'block table {T} = {txt or "?"} not recognised as a tiling of {X}', X
+        ab = affine_block(lo, hi, v, body_stores)
+        if ab is None:
+            return 'UNKNOWN', f'inner range({unparse(lo)}, {unparse(hi)}) not recognised', X
+        step = ab['step']
+        if ab['lo'].subst(v, Poly.const(0)) != Poly.const(0) or len(step.syms()) != 1 or step != Poly.sym(next(iter(step.syms()))):
+            return 'UNKNOWN', f'blocks start at {ab["lo"]!r}', X
+        c = next(iter(step.syms()))
+        cdef = single_def(c)
+        n = _topoly(count, set())
+        if cdef is None or n is None:
+            return 'UNKNOWN', f'block size {c} has no single definition', X
+        L = [t for t in lens(X)]
+
+        def is_len(e):
+            return unparse(e) in L
+
+        def floordiv_by_n(e):
+            return isinstance(e, ast.BinOp) and isinstance(e.op, ast.FloorDiv) and _topoly(e.right, set()) == n
+        capped = ab['cap'] is not None and is_len(ab['cap'])
+        # ceil forms: (len + n - 1) // n ; len // n + 1 ; -(-len // n)
+        ceil = False
+        if floordiv_by_n(cdef):
+            num = cdef.left
+            pn = _topoly(num, set())
+            if pn is not None and any(pn == Poly.sym(f'len({X})') + n - 1 for _ in (0,)) and f'len({X})' in L:
+                ceil = True
+        if isinstance(cdef, ast.BinOp) and isinstance(cdef.op, ast.Add) and floordiv_by_n(cdef.left) and is_len(cdef.left.left) and unparse(cdef.right) == '1':
+            ceil = True
+        if isinstance(cdef, ast.UnaryOp) and isinstance(cdef.op, ast.USub) and floordiv_by_n(cdef.operand) and isinstance(cdef.operand.left, ast.UnaryOp) \
+                and isinstance(cdef.operand.left.op, ast.USub) and is_len(cdef.operand.left.operand):
+            ceil = True
+        if ceil and capped:
+            return 'PROVEN', f'affine: {unparse(count)} blocks of {c} = {unparse(cdef)} >= len/n, capped at len({X})', X
+        if floordiv_by_n(cdef) and is_len(cdef.left):
+            # floor: the remainder len % n must be handled by a tail loop range(n*c, len)
+            after = False
+            for s in walk_no_nested(fn):
+                if isinstance(s, ast.For) and s is not inner and isinstance(s.iter, ast.Call) and dotted(s.iter.func) == 'range' and len(s.iter.args) == 2 \
+                        and s.lineno > loop.lineno and is_len(s.iter.args[1]) and _topoly(s.iter.args[0], set()) == n * Poly.sym(c) \
+                        and elem_store(s.body, s.target.id if isinstance(s.target, ast.Name) else '') == X:
+                    after = True
+            if after:
+                return 'PROVEN', f'affine: {unparse(count)} blocks of {c} = {unparse(cdef)} plus a tail loop for the remainder', X
+            return 'REFUTED', (f'{unparse(count)} blocks of {c} = {unparse(cdef)} elements cover only the first {unparse(count)}*{c} elements of {X}: '
+                               f'the last len({X}) % {unparse(count)} elements are never updated (e.g. len({X}) = 1 with 2 threads updates nothing)'), X
+        return 'UNKNOWN', f'block size {c} = {unparse(cdef)} not recognised', X
+    return 'UNKNOWN', 'no element-wise store found', None
